@@ -14,6 +14,7 @@ import Circomspect.Model.Propagate
 import Circomspect.Model.SignalAssign
 import Circomspect.Model.Includes
 import Driver.Sexp
+import Driver.DesugarCmd
 
 namespace Driver
 open Circomspect
@@ -641,6 +642,7 @@ def wfcheckCmd (rest : String) : String :=
   | _ => "bad-op"
 
 def handle (line : String) : String :=
+  if line.startsWith "desugar " then desugarCmd (line.drop 8).toString else
   if line.startsWith "cfglift " then cfgliftCmd (line.drop 8).toString else
   if line.startsWith "wfcheck " then wfcheckCmd (line.drop 8).toString else
   if line.startsWith "traces " then tracesCmd (line.drop 7).toString else
